@@ -218,7 +218,7 @@ def _iterators(repo, rep):
     # Token.__new__ keeps string and pos
     tk = repo.cls(TOK + ".Token")
     new = tk.methods.get("__new__")
-    text = " ".join(src(s) for s in new.node.body)
+    text = L.text(new.node, body_only=True)
     rep.check("str.__new__(cls, string)" in text and "inst.pos = pos" in text
               and "inst.source = source" in text, "R03.2", new.qualname,
               "Token stores text, position and source unchanged",
@@ -436,8 +436,7 @@ def _fields(repo, rep):
     # match_tag: value alternatives are folded into 'value'; suffix is what
     # follows the last attribute
     mt = repo.func(PARSER + ".match_tag")
-    text = " ".join(src(s) for s in ast.walk(mt.node)
-                    if isinstance(s, ast.stmt))
+    text = L.text(mt.node)
     for need, what in (
             ("attr['value'] = alt_value", "unquoted value kept as value"),
             ("d['suffix'] = token[m.end():]",
@@ -542,16 +541,14 @@ def _verbatim(repo, rep):
               detail=A.show(v, limit=2))
     # processing instructions other than <?python are re-assembled
     f = repo.func(PROG + "visit_processing_instruction")
-    text = " ".join(src(s) for s in ast.walk(f.node)
-                    if isinstance(s, ast.stmt))
+    text = L.text(f.node)
     rep.check("'<?' + node['name'] + node['text'] + '?>'" in text, "R03.4",
               f.qualname, "a foreign processing instruction is re-assembled "
               "from all of its captured parts", construct="pi",
               where=L.where(f))
     # Compiler.visit joins adjacent EmitText without loss
     f = repo.func(COMP + "visit")
-    text = " ".join(src(s) for s in ast.walk(f.node)
-                    if isinstance(s, ast.stmt))
+    text = L.text(f.node)
     rep.check("join((node.s for node in nodes))" in text.replace(
         "join(node.s for node in nodes)", "join((node.s for node in nodes))"),
         "R03.4", f.qualname, "adjacent text emissions are concatenated in "
